@@ -1,9 +1,16 @@
 #!/bin/bash
-# tools/seedtest.sh <seed-dir-name> <property> [tier] — applies a seeded change to /repo, runs the check, reverts.
+# tools/seedtest.sh <seed-dir-name> <property> [tier]
+# Runs a check against a seeded change WITHOUT touching /repo or /verif: a scratch worktree of /repo with the
+# patch applied and a scratch copy of /verif whose lab module is pointed at it.
 set -u
 S=/verif/seeded/$1; P=$2; T=${3:-quick}
-cd /repo && git diff --quiet || { echo "repo dirty"; exit 3; }
-git -C /repo apply $S/patch.diff || { echo "patch does not apply"; exit 3; }
-cd /verif && ./vcheck $P --tier $T 2>&1 | grep -v "^$\|Congrat\|Just activ\|Initialized" | grep -E "VIOLATION|violation detail|KNOWN|held on|CHECK-BROKEN" | cut -c1-400 | head -8
-git -C /repo checkout -- . 
-git -C /repo status --short | head -3
+W=/tmp/seedrun-$1-$P
+rm -rf $W; mkdir -p $W
+git -C /repo worktree add -q --detach $W/repo HEAD || exit 3
+( cd $W/repo && git apply $S/patch.diff ) || { echo "patch does not apply"; git -C /repo worktree remove --force $W/repo; exit 3; }
+mkdir -p $W/verif && cp -r /verif/lab /verif/spec /verif/known_findings.json /verif/properties.jsonl $W/verif/
+sed -i "s#=> /repo#=> $W/repo#" $W/verif/lab/go.mod
+export GOFLAGS=-mod=mod GOPROXY=off GOSUMDB=off GOTOOLCHAIN=local VERIF_DIR=$W/verif VERIF_REPO=$W/repo
+( cd $W/verif/lab && go build -tags verif -o $W/vcheck ./cmd/vcheck ) || { echo "BUILD FAILED"; git -C /repo worktree remove --force $W/repo; rm -rf $W; exit 3; }
+( cd $W/verif && timeout 1500 $W/vcheck $P --tier $T 2>&1 | grep -E "VIOLATION|violation detail|KNOWN|held on|CHECK-BROKEN" | cut -c1-330 | sed "s#$W##g" | head -6 )
+git -C /repo worktree remove --force $W/repo; rm -rf $W
